@@ -6,6 +6,13 @@ NOTE = ("bounded scope only (declared lattices/catalogues/depths); exact Fractio
 TECH = "exhaustive small-scope enumeration of the real implementation against an exact reference model (explicit-state explorer written for this task)"
 
 CHECKS = {
+    "C18": ("segment x segment and segment x line over all ordered endpoint pairs of the 3x3 lattice (+ half points): crossing, T-touch, endpoint touch, "
+            "parallel, collinear (only 'no spurious point' there); segment x plane and 3D segment x segment (skew operands may raise the documented "
+            "NotCoplanar); 2D polygon catalogue x lines and segments through lattice pairs of the bounding box; 3D polygons in 7 embeddings x lines / "
+            "segments piercing the interior, an edge, a vertex, missing, stopping short, parallel and in-plane; axis-aligned and sheared cuboids x "
+            "lines / segments through lattice pairs of the enclosing grid. The returned list must equal the exact rational set of isolated common "
+            "points (each once, Point objects), single and collection operands.",
+            NOTE, TECH, "DESIGN.md section 5, C18"),
     "C16": ("Every polygon of an 11-polygon catalogue (triangles of both orientations, rectangles, skew quadrilateral, dart, L, comb, polygons with "
             "vertices level with other vertices) x every cyclic rotation x both directions x every half-integer query point of the bounding box + "
             "margin (at vertices, on edges, on edge extensions, level with vertices, inside, outside) against an exact integer crossing-number "
